@@ -88,7 +88,19 @@ def argsOk (tbl : FuncTable) : List Ty → List Expr → Bool
 
 /-- `COMPARISON_OPERATORS` -/
 def isComparisonOp (op : CmpOp) : Bool :=
-  op == .eq || op == .ne || op == .lt || op == .le || op == .gt || op == .ge || op == .re
+  op == .eq || op == .ne || op == .lg || op == .lt || op == .le || op == .gt || op == .ge || op == .re
+
+/-- the operator as `BINARY_OPERATORS` spells it (what `COMPARISON_OPERATORS` lists) -/
+def opSymbol : CmpOp → String
+  | .eq => "==" | .ne => "!=" | .lg => "<>" | .lt => "<" | .le => "<=" | .gt => ">" | .ge => ">="
+  | .and => "&&" | .or => "||" | .in_ => "in" | .contains => "contains" | .re => "=~"
+
+/-- side condition on the translated `COMPARISON_OPERATORS`: it lists exactly the operators `isComparisonOp`
+    holds the typing rules of comparisons to - in particular `<>` wherever `!=` -/
+def comparisonTableOK (tbl : List String) : Bool :=
+  [CmpOp.eq, .ne, .lg, .lt, .le, .gt, .ge, .and, .or, .in_, .contains, .re].all
+    (fun op => isComparisonOp op == tbl.contains (opSymbol op)) &&
+  tbl.all (fun s => [CmpOp.eq, .ne, .lg, .lt, .le, .gt, .ge, .and, .or, .in_, .contains, .re].any (fun op => opSymbol op == s))
 
 /-- operators NOT in `INFIX_LITERAL_OPERATORS`: the logical ones -/
 def isLogicalOp (op : CmpOp) : Bool := op == .and || op == .or
